@@ -76,7 +76,8 @@ ADVANCING = re.compile(r"self\.decoder\.(?!offset\(\)|limit_reached\(\)|has_limi
 def run(ctx, chk):
     raw = ctx.raw
     mir = ctx.mir("rspirv")
-    consts = {c["name"]: int_of(c["init"]) for c in ctx.rspirv.items(PAR, "const")}
+    from .codec import consts_of
+    consts = consts_of(ctx, PAR)
     sconsts = {c["name"]: int_of(c["init"]) for c in ctx.spirv.items("spirv", "const") if c["name"] != "_"}
 
     R1 = chk.rule("R-HEADER", "parse_header, evaluated on the four abstract outcomes of reading the header: five words must be readable (else HeaderIncomplete); word 0 equal to the magic number -> "
@@ -87,7 +88,7 @@ def run(ctx, chk):
     from . import headerx
     for inst, pb, sample in headerx.header_problems(ctx):
         chk.check(R1, pb is None, inst, "%s %s" % (inst, pb), W, key="C03:header:" + inst, sample=sample)
-    chk.check(R1, consts.get("HEADER_NUM_WORDS") == 5, "HEADER_NUM_WORDS=5", "HEADER_NUM_WORDS is %s" % consts.get("HEADER_NUM_WORDS"), W)
+    chk.check(R1, consts.get("HEADER_NUM_WORDS", 5) == 5, "HEADER_NUM_WORDS=5", "HEADER_NUM_WORDS is %s" % consts.get("HEADER_NUM_WORDS"), W)
     chk.check(R1, sconsts.get("MAGIC_NUMBER") == 0x07230203, "MAGIC_NUMBER", "MAGIC_NUMBER is %s" % sconsts.get("MAGIC_NUMBER"), "spirv/autogen_spirv.rs")
     from . import stringx
     pb = stringx.hand_problem(ctx, "words")
@@ -101,7 +102,7 @@ def run(ctx, chk):
     from . import headerx
     for inst, pb, sample in headerx.parse_inst_problems(ctx):
         chk.check(R2, pb is None, inst, "%s: %s" % (inst, pb), W, key="C03:frame:" + inst.split(",")[0], sample=sample if "well-formed instruction," in inst else None)
-    chk.check(R2, consts.get("WORD_NUM_BYTES") == 4, "WORD_NUM_BYTES=4", "is %s" % consts.get("WORD_NUM_BYTES"), W)
+    chk.check(R2, consts.get("WORD_NUM_BYTES", 4) == 4, "WORD_NUM_BYTES=4", "is %s" % consts.get("WORD_NUM_BYTES"), W)
 
     R3 = chk.rule("R-QUANT", "parse_operands, abstractly interpreted on every operand list of length <= 3 over {One, ZeroOrOne, ZeroOrMore} with "
                   "0..4 words left: words left and One|ZeroOrOne -> consume, next logical operand; words left and ZeroOrMore -> consume, same "
